@@ -24,8 +24,8 @@ def carry(r):
     return ("T", r["soft"]) if r["ev"] == "T" else None
 
 
-def validate(w, name, rows):
-    v, st, tr = lib.tlc_trace(w, name, "Trace_Cond", lib.cfg_of("Trace_Cond"), rows, chunk=600, carry=carry)
+def validate(w, name, rows, chunk=600):
+    v, st, tr = lib.tlc_trace(w, name, "Trace_Cond", lib.cfg_of("Trace_Cond"), rows, chunk=chunk, carry=carry)
     v.setdefault("bad", [])
     return v, st, tr
 
@@ -90,8 +90,34 @@ def check(prop, w, tier, t0):
     if mode == "c09":
         spaces = [dict(MAXLEN=3 if tier == "quick" else 4, RICH="FALSE")]
     states = trans = 0
-    events = []
     nchains = 0
+    # events are consumed part by part (validated, counted, dropped): the thorough spaces produce
+    # millions of events, more than fits in memory at once
+    acc = {"nq": 0, "total": 0, "distinct": set(), "nontrivial": set(), "sample": [], "st": 0, "tr": 0, "parts": 0}
+
+    def consume(part):
+        if not part:
+            return
+        acc["parts"] += 1
+        v, st, tr = validate(w, "V%d" % acc["parts"], part, chunk=max(600, len(part) // 8 + 1))   # 8 validators per part
+        acc["st"] += st
+        acc["tr"] += tr
+        acc["total"] += len(part)
+        for e in part:
+            if e["ev"] != "Q":
+                continue
+            acc["nq"] += 1
+            h = lib.case_hash([e["rchain"], e["rfin"], e["soft"]])
+            acc["distinct"].add(h)
+            ch = json.loads(e["rchain"])
+            if (mode == "c09") or len(ch) >= 2 or (ch and (ch[0]["form"] == "group" or (ch[0].get("ast") or {}).get("k") in ("and", "or", "not"))):
+                acc["nontrivial"].add(h)
+            if len(acc["sample"]) < 2 and (acc["nq"] % 97 == 1):
+                acc["sample"].append(e)
+        for b in v["bad"]:
+            bad, sig = failing(prop, b)
+            if bad:
+                verdict.bad(case_of(part, b["i"]), sig, describe(part[b["i"] - 1]))
     # ---- direction A: TLC enumerates the chain space (and checks the design-level invariants)
     for k, sp in enumerate(spaces):
         d = w.sub("gen%d" % k)
@@ -106,16 +132,21 @@ def check(prop, w, tier, t0):
         nchains += len(chains)
         cf = os.path.join(d, "chains.ndjson")
         lib.write_ndjson(cf, chains)
-        nproc = min(lib.NCPU, max(1, len(chains) // 200))
-        step = (len(chains) + nproc - 1) // nproc
+        nparts = max(1, min(64, len(chains) // 2000)) if len(chains) > 4000 else min(lib.NCPU, max(1, len(chains) // 200))
+        step = (len(chains) + nparts - 1) // nparts
+        nthis = len(chains)
+        del chains
 
         def rep(j):
             out = os.path.join(d, "obs%d.ndjson" % j)
-            lib.run([vh, "cond-replay", "-cases", cf, "-out", out, "-mode", mode, "-from", str(j * step), "-to", str(min(len(chains), (j + 1) * step))], timeout=7000, env=penv(j % 2 == 1))
-            return lib.read_ndjson(out)
-        with ThreadPoolExecutor(max_workers=nproc) as ex:
-            for part in ex.map(rep, range(nproc)):
-                events += part
+            lib.run([vh, "cond-replay", "-cases", cf, "-out", out, "-mode", mode, "-from", str(j * step), "-to", str(min(nthis, (j + 1) * step))], timeout=7000, env=penv(j % 2 == 1))
+            rows = lib.read_ndjson(out)
+            os.remove(out)
+            return rows
+        with ThreadPoolExecutor(max_workers=min(lib.NCPU, 8)) as ex:
+            for base in range(0, nparts, 8):        # waves of 8: at most 8 parts are held at a time
+                for part in list(ex.map(rep, range(base, min(nparts, base + 8)))):
+                    consume(part)
     # ---- direction B: seeded random trees / forms / tables
     d = w.sub("rand")
     nproc = min(lib.NCPU, max(1, nrand // 500))
@@ -123,13 +154,15 @@ def check(prop, w, tier, t0):
     def rnd(j):
         out = os.path.join(d, "r%d.ndjson" % j)
         lib.run([vh, "cond-random", "-out", out, "-mode", mode, "-n", str(nrand // nproc), "-seed", str(sd * 1000 + j)], timeout=7000, env=penv(j % 2 == 1))
-        return lib.read_ndjson(out)
-    with ThreadPoolExecutor(max_workers=nproc) as ex:
-        for part in ex.map(rnd, range(nproc)):
-            events += part
-    v, st, tr = validate(w, "V", events)
-    states += st
-    trans += tr
+        rows = lib.read_ndjson(out)
+        os.remove(out)
+        return rows
+    with ThreadPoolExecutor(max_workers=min(nproc, 8)) as ex:
+        for base in range(0, nproc, 8):
+            for part in list(ex.map(rnd, range(base, min(nproc, base + 8)))):
+                consume(part)
+    states += acc["st"]
+    trans += acc["tr"]
     nloads = 0
     if prop == "C08":
         # joins / preloads / association lookups of soft-delete models: Assoc.tla reference join
@@ -142,21 +175,8 @@ def check(prop, w, tier, t0):
         for b in lv["bad"]:
             e = loads[b["i"] - 1]
             verdict.bad({"assoc": assocfam.case_of(e)}, None, assocfam.describe(e, b))
-    nq = sum(1 for e in events if e["ev"] == "Q")
-    distinct = set()
-    nontrivial = set()
-    for e in events:
-        if e["ev"] != "Q":
-            continue
-        h = lib.case_hash([e["rchain"], e["rfin"], e["soft"]])
-        distinct.add(h)
-        ch = json.loads(e["rchain"])
-        if (mode == "c09") or len(ch) >= 2 or (ch and (ch[0]["form"] == "group" or (ch[0].get("ast") or {}).get("k") in ("and", "or", "not"))):
-            nontrivial.add(h)
-    for b in v["bad"]:
-        bad, sig = failing(prop, b)
-        if bad:
-            verdict.bad(case_of(events, b["i"]), sig, describe(events[b["i"] - 1]))
+    nq = acc["nq"]
+    nontrivial = acc["nontrivial"]
 
     def reproduce(case):
         if "assoc" in case:
@@ -166,13 +186,12 @@ def check(prop, w, tier, t0):
         vv, rows = run_one(w, vh, case, "repro-" + lib.case_hash(case))
         return any(failing(prop, b)[0] for b in vv["bad"])
     rc = verdict.finish(reproduce)
-    sample = [e for e in events if e["ev"] == "Q"]
-    samples = [{k: x[k] for k in ("fin", "soft", "unscoped", "pk", "chain", "ids", "n", "err", "changed", "marked", "removed")} for x in (sample[len(sample) // 3], sample[-1])]
+    samples = [{k: x[k] for k in ("fin", "soft", "unscoped", "pk", "chain", "ids", "n", "err", "changed", "marked", "removed")} for x in acc["sample"]]
     cov = {"states": states, "transitions": trans, "traces_validated_against_impl": nq, "samples": samples,
            "evaluations": nq, "distinct_nontrivial": len(nontrivial),
            "rule": "each evaluation = one finisher executed on one chain on SQLite and judged by Trace_Cond; chains: %d enumerated by TLC (CondGen %s, every unit shape over atoms A,B,C on the 27-row grid with soft-deleted twins) + %d seeded random chains (trees to depth 3, every form, random tables with NULLs); distinct = hash of (chain rendering, finisher, model); non-trivial = at least two units, or a grouped / composite unit" % (nchains, spaces, nrand),
            "exhaustive": True, "chains_enumerated": nchains, "random_chains": nrand,
-           "known_finding_cases": verdict.known_hits, "events_total": len(events), "soft_delete_eager_loads": nloads}
+           "known_finding_cases": verdict.known_hits, "events_total": acc["total"], "soft_delete_eager_loads": nloads}
     lib.write_evidence(prop, tier, "model_checking", cov, time.time() - t0, len(verdict.violations),
                        ["renderer from abstract units to gorm call arguments (harness/cond/ast.go) is trusted",
                         "SQLite executes the SQL text gorm produced", "LIKE restricted to the vocabulary of spec/Values.tla",
